@@ -1,11 +1,809 @@
-//! C02 — (not built yet)
-#![allow(unused_imports, unused_variables, dead_code)]
+//! C02 — text deserialization returns the document's values on both parse paths.
+//!
+//! ops (the model answers both; trailing arguments after the token list are for replay / oracles
+//! and are ignored by the model):
+//!   tde_tape   <enc> <ty> <tape>    <hex> <expect>
+//!   tde_stream <enc> <ty> <rtokens> <hex> <cap> <sched> <expect>
+//!   x-tde_stream …   same, for inputs where the token-level stream model is not applicable
+//!                    (byte-level skip_container / read_expect_equals differ from token-level reading)
+//!   spec_doc <enc> <ty> <doc> <hex> the Lean SPEC on the abstract document (valueOf | lexemes | tapeOf) against the
+//!                                   real deserializer / reader / tape parser on its canonical rendering <hex>
+//!   x-derive <which> <enc> <hex>    real derived structs against TySeed on the same input
+//!   x-probe <kind> <enc> <ty> <hex> known divergences, observed and counted
+//! enc = w1252 | utf8.  <tape> = show::text_tape of the REAL tape of <hex>; <rtokens> = the REAL
+//! TokenReader::from_slice tokens of <hex> (show::text_lex_tok, plus a final `Err` when the lexer failed).
+//! <expect> = value computed from the abstract document by `value_of` (independent reference), `-` = none.
+//! result = Val rendering of tyseed.rs or its error class.
 use crate::common::*;
+use crate::docgen::*;
+use crate::sched;
+use crate::show;
+use crate::tyseed::*;
+use jomini::text::{Token, TokenReader};
+use jomini::{TextDeserializer, TextTape};
+use serde::de::DeserializeSeed;
+use std::io::Read;
 
-pub fn gen(g: &mut Gen) {}
+#[derive(Clone, Copy, PartialEq, Debug)]
+enum Enc { W, U }
+impl Enc {
+    fn name(self) -> &'static str { match self { Enc::W => "w1252", Enc::U => "utf8" } }
+    fn parse(s: &str) -> Option<Enc> { match s { "w1252" => Some(Enc::W), "utf8" => Some(Enc::U), _ => None } }
+}
+
+// ---------------------------------------------------------------------------------------
+// running the real code
+
+fn cls<E: std::fmt::Display>(r: Result<String, E>) -> String {
+    match r { Ok(v) => v, Err(e) => err_class(&e.to_string()) }
+}
+
+fn run_tape(enc: Enc, ty: &Ty, tape: &TextTape) -> String {
+    match enc {
+        Enc::W => cls(TySeed(ty).deserialize(&TextDeserializer::from_windows1252_tape(tape))),
+        Enc::U => cls(TySeed(ty).deserialize(&TextDeserializer::from_utf8_tape(tape))),
+    }
+}
+
+fn run_slice(enc: Enc, ty: &Ty, data: &[u8]) -> String {
+    match enc {
+        Enc::W => match TextDeserializer::from_windows1252_slice(data) { Ok(de) => cls(TySeed(ty).deserialize(&de)), Err(_) => "err:parse".into() },
+        Enc::U => match TextDeserializer::from_utf8_slice(data) { Ok(de) => cls(TySeed(ty).deserialize(&de)), Err(_) => "err:parse".into() },
+    }
+}
+
+/// (result, error was BufferFull)
+fn run_reader<R: Read>(enc: Enc, ty: &Ty, rdr: TokenReader<R>) -> (String, bool) {
+    let r = match enc {
+        Enc::W => { let mut de = TextDeserializer::from_windows1252_reader(rdr); TySeed(ty).deserialize(&mut de) }
+        Enc::U => { let mut de = TextDeserializer::from_utf8_reader(rdr); TySeed(ty).deserialize(&mut de) }
+    };
+    match r {
+        Ok(v) => (v, false),
+        Err(e) => { let m = e.to_string(); (err_class(&m), m.contains("max buffer size")) }
+    }
+}
+
+struct Lexed { toks: Vec<String>, ends: Vec<usize>, kinds: Vec<u8>, err: bool }
+const K_OPEN: u8 = 0; const K_CLOSE: u8 = 1; const K_OTHER: u8 = 2; const K_EXACT: u8 = 3;
+
+/// the real slice reader's token stream with the end position of every token
+fn lex(data: &[u8]) -> Lexed {
+    let mut r = TokenReader::from_slice(data);
+    let mut out = Lexed { toks: vec![], ends: vec![], kinds: vec![], err: false };
+    loop {
+        let step = match r.next() {
+            Ok(Some(t)) => {
+                let k = match t { Token::Open => K_OPEN, Token::Close => K_CLOSE, Token::Operator(jomini::text::Operator::Exact) => K_EXACT, _ => K_OTHER };
+                Some((show::text_lex_tok(&t), k))
+            }
+            Ok(None) => None,
+            Err(_) => { out.err = true; None }
+        };
+        match step {
+            Some((s, k)) => { out.toks.push(s); out.kinds.push(k); out.ends.push(r.position()); }
+            None => break,
+        }
+        if out.toks.len() > 100_000 { break; }
+    }
+    out
+}
+
+fn show_lexed(l: &Lexed) -> String {
+    let mut v = l.toks.clone();
+    if l.err { v.push("Err".to_string()); }
+    if v.is_empty() { "-".to_string() } else { v.join(",") }
+}
+
+/// Is the token-level stream model applicable?  The streaming deserializer touches bytes in
+/// `skip_container` (a byte scanner; `read_expect_equals` peeks bytes too but, since the repair of
+/// finding `exact-operator-split`, agrees with `read`).  The token-level model is exact when every
+/// byte-level skip started after an Open lands right after the token-level matching Close (or fails
+/// when there is none).
+fn token_model_applicable(data: &[u8], l: &Lexed) -> Result<(), &'static str> {
+    for i in 0..l.toks.len() {
+        if l.kinds[i] == K_OPEN {
+            let mut depth = 1usize;
+            let mut expect = None;
+            for j in i + 1..l.toks.len() {
+                if l.kinds[j] == K_OPEN { depth += 1; }
+                if l.kinds[j] == K_CLOSE { depth -= 1; if depth == 0 { expect = Some(l.ends[j]); break; } }
+            }
+            let p = l.ends[i];
+            let mut r = TokenReader::from_slice(&data[p..]);
+            let got = match r.skip_container() { Ok(()) => Some(p + r.position()), Err(_) => None };
+            if got != expect { return Err("skip-differs"); }
+        }
+    }
+    Ok(())
+}
+
+// ---------------------------------------------------------------------------------------
+// independent reference: the value a (type, abstract document) pair denotes
+
+fn w1252_char(b: u8) -> char {
+    const HI: [u16; 32] = [0x20ac, 0x81, 0x201a, 0x0192, 0x201e, 0x2026, 0x2020, 0x2021, 0x02c6, 0x2030, 0x0160, 0x2039, 0x0152, 0x8d, 0x017d, 0x8f,
+                           0x90, 0x2018, 0x2019, 0x201c, 0x201d, 0x2022, 0x2013, 0x2014, 0x02dc, 0x2122, 0x0161, 0x203a, 0x0153, 0x9d, 0x017e, 0x0178];
+    if (0x80..0xa0).contains(&b) { char::from_u32(HI[(b - 0x80) as usize] as u32).unwrap() } else { b as char }
+}
+
+/// strings: trailing ASCII whitespace dropped, backslashes deleted, then the chosen encoding
+fn decode_ref(enc: Enc, raw: &[u8]) -> Vec<u8> {
+    let mut d = raw;
+    while let [rest @ .., last] = d { if matches!(last, b' ' | b'\t' | b'\n' | b'\r' | 0x0c) { d = rest } else { break } }
+    let body: Vec<u8> = d.iter().copied().filter(|b| *b != b'\\').collect();
+    match enc {
+        Enc::W => body.iter().map(|b| w1252_char(*b)).collect::<String>().into_bytes(),
+        Enc::U => String::from_utf8_lossy(&body).into_owned().into_bytes(),
+    }
+}
+
+/// (negative, magnitude) of `[+-]?digits+`
+fn ref_int(d: &[u8]) -> Option<(bool, u128)> {
+    let (neg, body) = match d.first()? { b'+' => (false, &d[1..]), b'-' => (true, &d[1..]), _ => (false, d) };
+    if body.is_empty() || body.len() > 30 || !body.iter().all(|b| b.is_ascii_digit()) { return None; }
+    Some((neg, body.iter().fold(0u128, |a, b| a * 10 + (*b - b'0') as u128)))
+}
+
+fn raw_bytes(l: &Leaf) -> Vec<u8> {
+    match l { Leaf::Quo(b) => b.clone(), other => leaf_text(other).0 }
+}
+
+fn value_of_leaf(enc: Enc, ty: &Ty, l: &Leaf) -> Option<String> {
+    let text = raw_bytes(l);
+    let ty_err = Some("err:type".to_string());
+    match ty {
+        Ty::Bool => Some(if text == b"yes" { "b1".into() } else if text == b"no" { "b0".into() } else { return ty_err }),
+        Ty::I64 | Ty::I32 => {
+            let foreign = text.iter().any(|b| !b.is_ascii_digit() && *b != b'+' && *b != b'-');
+            let (neg, m) = match ref_int(&text) { Some(x) => x, None => return if foreign { ty_err } else { None } };
+            if m > i64::MAX as u128 && !(neg && m == 1u128 << 63) { return ty_err; }
+            let v = if neg { (-(m as i128)) as i64 } else { m as i64 };
+            if *ty == Ty::I32 && i32::try_from(v).is_err() { return ty_err; }
+            Some(format!("i{}", v))
+        }
+        Ty::U64 | Ty::U32 => {
+            let foreign = text.iter().any(|b| !b.is_ascii_digit() && *b != b'+' && *b != b'-');
+            let (neg, m) = match ref_int(&text) { Some(x) => x, None => return if foreign { ty_err } else { None } };
+            if neg { return ty_err; }
+            if m > u64::MAX as u128 { return ty_err; }
+            if *ty == Ty::U32 && m > u32::MAX as u128 { return ty_err; }
+            Some(format!("u{}", m))
+        }
+        Ty::F64 | Ty::F32 => {
+            // decimal meaning, correctly rounded (only for the typed leaves the generator writes canonically)
+            let ok = match l { Leaf::Int(i) => i.unsigned_abs() < (1 << 53), Leaf::Uint(u) => *u < (1 << 53), Leaf::Fixed(_) => true, _ => false };
+            if !ok { return None; }
+            let v: f64 = std::str::from_utf8(&text).ok()?.parse().ok()?;
+            if v == 0.0 && text.first() == Some(&b'-') { return None; }
+            Some(if *ty == Ty::F64 { format!("f{}", v.to_bits()) } else { format!("g{}", (v as f32).to_bits()) })
+        }
+        Ty::Str | Ty::Any => Some(format!("s{}", hex(&decode_ref(enc, &text)))),
+        Ty::Ign => Some("ign".into()),
+        Ty::Opt(t) => value_of_leaf(enc, t, l).map(|v| if v.starts_with("err") { v } else { format!("some({})", v) }),
+        Ty::Enum(vs) => {
+            let name = decode_ref(enc, &text);
+            Some(if vs.iter().any(|v| v.as_bytes() == &name[..]) { format!("en({})", hex(&name)) } else { "err:other".into() })
+        }
+        _ => None,
+    }
+}
+
+fn is_err(v: &str) -> bool { v.starts_with("err") }
+
+/// number of sequence elements a node occupies (a header and its body are two values)
+fn arr_units(n: &Node) -> usize { match n { Node::Header(..) | Node::Rgb(..) => 2, _ => 1 } }
+
+fn value_of_fields(enc: Enc, ty: &Ty, fs: &[Field]) -> Option<String> {
+    if fs.iter().any(|f| f.ghosts > 0 || f.implicit_eq) { return None; }
+    match ty {
+        Ty::Struct(decl) => {
+            let mut slots: Vec<Option<String>> = vec![None; decl.len()];
+            for f in fs {
+                let key = decode_ref(enc, &raw_bytes(&f.key));
+                match decl.iter().position(|(n, _)| n.as_bytes() == &key[..]) {
+                    Some(i) => {
+                        if slots[i].is_some() { return Some(format!("err:duplicate:{}", decl[i].0)); }
+                        let v = value_of_node(enc, &decl[i].1, &f.val, Some(f.op))?;
+                        if is_err(&v) { return Some(v); }
+                        slots[i] = Some(v);
+                    }
+                    None => {}
+                }
+            }
+            let mut items = vec![];
+            for (i, (name, t)) in decl.iter().enumerate() {
+                let v = match slots[i].take() { Some(v) => v, None => match t { Ty::Opt(_) => "none".to_string(), _ => return Some(format!("err:missing:{}", name)) } };
+                items.push(format!("{}={}", name, v));
+            }
+            Some(format!("{{{}}}", items.join(",")))
+        }
+        Ty::Map(t) => {
+            let mut items = vec![];
+            for f in fs {
+                let k = format!("s{}", hex(&decode_ref(enc, &raw_bytes(&f.key))));
+                let v = value_of_node(enc, t, &f.val, Some(f.op))?;
+                if is_err(&v) { return Some(v); }
+                items.push(format!("{}={}", k, v));
+            }
+            Some(format!("{{{}}}", items.join(",")))
+        }
+        _ => None,
+    }
+}
+
+/// `op` is Some in field position (operator capture), None for sequence elements
+fn value_of_node(enc: Enc, ty: &Ty, n: &Node, op: Option<Op>) -> Option<String> {
+    match ty {
+        Ty::Ign => return Some("ign".into()),
+        Ty::Opt(t) => return value_of_node(enc, t, n, op).map(|v| if is_err(&v) { v } else { format!("some({})", v) }),
+        Ty::Prop(t) => {
+            let op = op?;
+            // the captured value is read without its operator: a nested Property has nothing to capture
+            if matches!(**t, Ty::Prop(_)) || matches!(&**t, Ty::Opt(x) if matches!(**x, Ty::Prop(_))) { return None; }
+            return value_of_node(enc, t, n, None).map(|v| if is_err(&v) { v } else { format!("prop({},{})", op.name(), v) });
+        }
+        _ => {}
+    }
+    match n {
+        Node::Leaf(l) => value_of_leaf(enc, ty, l),
+        Node::Obj(fs) => value_of_fields(enc, ty, fs),
+        Node::Arr(vs) => match ty {
+            Ty::Seq(t) => {
+                if matches!(vs.first(), Some(Node::Arr(v)) if v.is_empty()) { return None; }
+                let mut items = vec![];
+                for v in vs {
+                    if arr_units(v) == 2 {
+                        if **t != Ty::Ign { return None; }
+                        items.push("ign".to_string()); items.push("ign".to_string());
+                    } else {
+                        let x = value_of_node(enc, t, v, None)?;
+                        if is_err(&x) { return Some(x); }
+                        items.push(x);
+                    }
+                }
+                Some(format!("[{}]", items.join(",")))
+            }
+            _ => None,
+        },
+        // a header value read with a scalar target (not `any`: the tape path would present the body) is its
+        // name on both paths; the body is skipped
+        Node::Header(name, _) => if has_any(ty) { None } else { value_of_leaf(enc, ty, &Leaf::Unq(name.clone())) },
+        Node::Rgb(..) => if has_any(ty) { None } else { value_of_leaf(enc, ty, &Leaf::Unq(b"rgb".to_vec())) },
+        Node::Mixed(..) => None,
+    }
+}
+
+fn has_any(t: &Ty) -> bool {
+    match t { Ty::Any => true, Ty::Opt(x) | Ty::Seq(x) | Ty::Map(x) | Ty::Prop(x) => has_any(x), Ty::Struct(fs) => fs.iter().any(|(_, x)| has_any(x)), _ => false }
+}
+
+fn value_of(enc: Enc, ty: &Ty, doc: &Doc) -> Option<String> {
+    value_of_fields(enc, ty, &doc.fields)
+}
+
+// ---------------------------------------------------------------------------------------
+// target type generation (shape-directed full capture, partial structs, typed scalars, Property, enums)
+
+const VARIANT_POOL: [&str; 6] = ["alpha", "beta", "core", "name", "x", "zz"];
+
+fn ident(b: &[u8]) -> bool { !b.is_empty() && b.len() <= 12 && b.iter().all(|c| c.is_ascii_alphanumeric() || *c == b'_') }
+
+fn gen_leaf_ty(rng: &mut Rng, l: &Leaf) -> Ty {
+    if rng.chance(1, 40) { return rng.pick(&[Ty::Bool, Ty::I64, Ty::U64, Ty::F64, Ty::Str]).clone(); }
+    match l {
+        Leaf::Int(i) => match rng.below(8) { 0 => Ty::F64, 1 => Ty::Any, 2 => Ty::Str, 3 => Ty::I32, 4 if *i >= 0 || rng.chance(1, 4) => Ty::U64, 5 => Ty::F32, 6 => Ty::U32, _ => Ty::I64 },
+        Leaf::Uint(u) => match rng.below(7) { 0 => Ty::Any, 1 => Ty::Str, 2 => Ty::U32, 3 => Ty::I64, 4 if *u < (1 << 53) => Ty::F64, 5 => Ty::I32, _ => Ty::U64 },
+        Leaf::Bool(_) => match rng.below(5) { 0 => Ty::Any, 1 => Ty::Str, _ => Ty::Bool },
+        Leaf::Fixed(_) => match rng.below(5) { 0 => Ty::Any, 1 => Ty::Str, 2 => Ty::F32, _ => Ty::F64 },
+        Leaf::Date(..) => if rng.chance(1, 3) { Ty::Any } else { Ty::Str },
+        Leaf::Unq(b) | Leaf::Quo(b) => {
+            if ident(b) && rng.chance(1, 4) {
+                let mut vs: Vec<String> = (0..rng.below(3)).map(|_| rng.pick(&VARIANT_POOL).to_string()).collect();
+                if rng.chance(4, 5) { vs.push(String::from_utf8(b.clone()).unwrap()); }
+                vs.sort(); vs.dedup();
+                Ty::Enum(vs)
+            } else if rng.chance(1, 4) { Ty::Any } else { Ty::Str }
+        }
+    }
+}
+
+struct TyCfg { prop: bool }
+
+fn gen_fields_ty(rng: &mut Rng, fs: &[Field], cfg: &TyCfg) -> Ty {
+    let names: Vec<Option<String>> = fs.iter().map(|f| key_name(&f.key)).collect();
+    let all_named = names.iter().all(|n| n.is_some());
+    if all_named && !fs.is_empty() && rng.chance(5, 6) {
+        let mut out: Vec<(String, Ty)> = vec![];
+        for (f, n) in fs.iter().zip(names.iter()) {
+            let n = n.clone().unwrap();
+            // duplicate keys: declare once (the expected value is then err:duplicate)
+            if out.iter().any(|(x, _)| *x == n) { continue; }
+            if rng.chance(1, 5) { continue; } // partial struct: this field is unknown to the target
+            let mut t = gen_node_ty(rng, &f.val, cfg);
+            if cfg.prop && rng.chance(1, 6) { t = Ty::Prop(Box::new(t)); }
+            if rng.chance(1, 6) { t = Ty::Opt(Box::new(t)); }
+            out.push((n, t));
+        }
+        if rng.chance(1, 4) { out.push(("absent_opt".to_string(), Ty::Opt(Box::new(Ty::I64)))); }
+        if rng.chance(1, 60) { out.push(("absent_req".to_string(), Ty::I64)); }
+        if rng.chance(1, 8) && out.len() > 1 { let i = rng.below(out.len()); let j = rng.below(out.len()); out.swap(i, j); }
+        Ty::Struct(out)
+    } else {
+        let v = if fs.iter().all(|f| matches!(f.val, Node::Leaf(_))) { if rng.chance(1, 2) { Ty::Any } else { Ty::Str } } else { Ty::Ign };
+        let v = if cfg.prop && rng.chance(1, 6) { Ty::Prop(Box::new(v)) } else { v };
+        Ty::Map(Box::new(v))
+    }
+}
+
+fn gen_node_ty(rng: &mut Rng, n: &Node, cfg: &TyCfg) -> Ty {
+    if rng.chance(1, 25) { return Ty::Ign; }
+    match n {
+        Node::Leaf(l) => gen_leaf_ty(rng, l),
+        Node::Obj(fs) => gen_fields_ty(rng, fs, cfg),
+        Node::Arr(vs) => {
+            if vs.iter().all(|v| matches!(v, Node::Leaf(_))) {
+                // element type fitting every element: from the first element when they are alike, else a string
+                let t = match vs.first() {
+                    Some(Node::Leaf(l0)) if rng.chance(1, 2) && vs.iter().all(|v| matches!((v, l0), (Node::Leaf(Leaf::Int(_)), Leaf::Int(_)) | (Node::Leaf(Leaf::Uint(_)), Leaf::Uint(_)) | (Node::Leaf(Leaf::Bool(_)), Leaf::Bool(_)) | (Node::Leaf(Leaf::Fixed(_)), Leaf::Fixed(_)))) => gen_leaf_ty(rng, l0),
+                    _ => if rng.chance(1, 2) { Ty::Any } else { Ty::Str },
+                };
+                Ty::Seq(Box::new(if rng.chance(1, 10) { Ty::Opt(Box::new(t)) } else { t }))
+            } else if vs.iter().all(|v| matches!(v, Node::Obj(_))) {
+                let t = match rng.below(3) {
+                    0 => {
+                        // struct of optional fields drawn from the first element
+                        let mut out: Vec<(String, Ty)> = vec![];
+                        if let Some(Node::Obj(fs)) = vs.first() {
+                            for f in fs {
+                                if let Some(n) = key_name(&f.key) {
+                                    if out.iter().any(|(x, _)| *x == n) { continue; }
+                                    let leaf_everywhere = vs.iter().all(|v| match v { Node::Obj(g) => g.iter().all(|h| key_name(&h.key).as_deref() != Some(&n) || matches!(h.val, Node::Leaf(_))), _ => true });
+                                    out.push((n, Ty::Opt(Box::new(if leaf_everywhere { Ty::Any } else { Ty::Ign }))));
+                                }
+                            }
+                        }
+                        Ty::Struct(out)
+                    }
+                    1 if vs.iter().all(|v| matches!(v, Node::Obj(g) if g.iter().all(|h| matches!(h.val, Node::Leaf(_))))) => Ty::Map(Box::new(Ty::Str)),
+                    _ => Ty::Map(Box::new(Ty::Ign)),
+                };
+                Ty::Seq(Box::new(t))
+            } else if vs.iter().all(|v| matches!(v, Node::Arr(_))) && rng.chance(1, 2) {
+                Ty::Seq(Box::new(Ty::Seq(Box::new(Ty::Ign))))
+            } else {
+                Ty::Seq(Box::new(Ty::Ign))
+            }
+        }
+        Node::Rgb(..) | Node::Header(..) | Node::Mixed(..) => match rng.below(8) {
+            0 => Ty::Opt(Box::new(Ty::Ign)),
+            1 => Ty::Str,
+            2 => Ty::Enum(vec!["LIST".into(), "hsv".into(), "rgb".into()]),
+            _ => Ty::Ign,
+        },
+    }
+}
+
+/// a deliberately ill-fitting type somewhere (robustness of the correspondence; no expectation)
+fn misfit(rng: &mut Rng, t: &Ty) -> Ty {
+    let pool = [Ty::Bool, Ty::I64, Ty::U64, Ty::F64, Ty::Str, Ty::Any, Ty::Ign, Ty::Seq(Box::new(Ty::Any)), Ty::Map(Box::new(Ty::Any)),
+                Ty::Seq(Box::new(Ty::Str)), Ty::Map(Box::new(Ty::Str)), Ty::Enum(vec!["a".into(), "b".into()]), Ty::Prop(Box::new(Ty::Any)),
+                Ty::Struct(vec![("a".into(), Ty::Any), ("b".into(), Ty::Opt(Box::new(Ty::Any)))]), Ty::Opt(Box::new(Ty::Seq(Box::new(Ty::Ign)))),
+                Ty::Struct(vec![("remainder".into(), Ty::Seq(Box::new(Ty::Any)))]), Ty::Seq(Box::new(Ty::Prop(Box::new(Ty::Str))))];
+    match t {
+        Ty::Struct(fs) if !fs.is_empty() && rng.chance(3, 4) => {
+            let i = rng.below(fs.len());
+            let mut fs = fs.clone();
+            fs[i].1 = misfit(rng, &fs[i].1);
+            Ty::Struct(fs)
+        }
+        Ty::Seq(x) if rng.chance(1, 2) => Ty::Seq(Box::new(misfit(rng, x))),
+        Ty::Map(x) if rng.chance(1, 2) => Ty::Map(Box::new(misfit(rng, x))),
+        Ty::Opt(x) if rng.chance(1, 2) => Ty::Opt(Box::new(misfit(rng, x))),
+        _ => rng.pick(&pool).clone(),
+    }
+}
+
+// ---------------------------------------------------------------------------------------
+// real derived target types (cross-check of the Ty interpreter)
+
+mod derived {
+    use jomini::text::Property;
+    use jomini::JominiDeserialize;
+    use serde::Deserialize;
+    use std::collections::HashMap;
+
+    #[derive(Deserialize, Debug, PartialEq)]
+    #[serde(rename_all = "lowercase")]
+    pub enum Kind { Alpha, Beta, Core }
+
+    #[derive(Deserialize, Debug, PartialEq)]
+    pub struct Unit { pub x: i64, pub y: Option<f64>, #[serde(rename = "type")] pub ty: Option<Kind> }
+
+    #[derive(Deserialize, Debug, PartialEq)]
+    pub struct Top {
+        pub name: String,
+        pub id: u32,
+        pub core: Option<String>,
+        pub flags: Vec<String>,
+        pub army: HashMap<String, i64>,
+        pub unit: Unit,
+        pub list: Vec<Unit>,
+        pub date: Property<i64>,
+        pub a: bool,
+        pub b: Option<bool>,
+    }
+
+    /// jomini's own derive: duplicated keys collected, defaults
+    #[derive(JominiDeserialize, Debug, PartialEq)]
+    pub struct Dup {
+        #[jomini(duplicated)]
+        pub core: Vec<String>,
+        #[jomini(default)]
+        pub id: u32,
+        pub name: String,
+    }
+
+    pub const TOP_TY: &str = "st(name:str;id:u32;core:opt(str);flags:seq(str);army:map(i64);unit:st(x:i64;y:opt(f64);type:opt(en(alpha;beta;core)));list:seq(st(x:i64;y:opt(f64);type:opt(en(alpha;beta;core))));date:prop(i64);a:bool;b:opt(bool))";
+
+    fn h(b: &[u8]) -> String { crate::common::hex(b) }
+    fn unit(u: &Unit) -> String {
+        format!("{{x=i{},y={},type={}}}", u.x, match u.y { Some(v) => format!("some(f{})", v.to_bits()), None => "none".into() },
+            match &u.ty { Some(k) => format!("some(en({}))", h(match k { Kind::Alpha => b"alpha", Kind::Beta => b"beta", Kind::Core => b"core" })), None => "none".into() })
+    }
+    pub fn show_top(t: &Top) -> String {
+        let mut army: Vec<(&String, &i64)> = t.army.iter().collect();
+        army.sort();
+        let op = match t.date.operator().symbol() { "=" => "eq", "<" => "lt", "<=" => "le", ">" => "gt", ">=" => "ge", "!=" => "ne", "==" => "exact", "?=" => "exists", _ => "unknown" };
+        format!("{{name=s{},id=u{},core={},flags=[{}],army={{{}}},unit={},list=[{}],date=prop({},i{}),a=b{},b={}}}",
+            h(t.name.as_bytes()), t.id, match &t.core { Some(c) => format!("some(s{})", h(c.as_bytes())), None => "none".into() },
+            t.flags.iter().map(|f| format!("s{}", h(f.as_bytes()))).collect::<Vec<_>>().join(","),
+            army.iter().map(|(k, v)| format!("s{}=i{}", h(k.as_bytes()), v)).collect::<Vec<_>>().join(","),
+            unit(&t.unit), t.list.iter().map(unit).collect::<Vec<_>>().join(","), op, t.date.value(), t.a as u8,
+            match t.b { Some(b) => format!("some(b{})", b as u8), None => "none".into() })
+    }
+    pub fn show_dup(d: &Dup) -> String {
+        format!("{{core=[{}],id=u{},name=s{}}}", d.core.iter().map(|f| format!("s{}", h(f.as_bytes()))).collect::<Vec<_>>().join(","), d.id, h(d.name.as_bytes()))
+    }
+}
+
+/// a document shaped for `derived::Top` (sometimes with a missing / duplicated / ill-typed field)
+fn gen_top_doc(rng: &mut Rng) -> Vec<u8> {
+    let word = |rng: &mut Rng| -> String { (0..rng.range(1, 7)).map(|_| (b'a' + rng.below(26) as u8) as char).collect() };
+    let unit = |rng: &mut Rng| -> String {
+        let mut s = format!("x={}", rng.below(2000) as i64 - 1000);
+        if rng.chance(1, 2) { s += &format!(" y={}.{:03}", rng.below(50), rng.below(1000)); }
+        if rng.chance(1, 2) { s += &format!(" type={}", rng.pick(&["alpha", "beta", "core"])); }
+        if rng.chance(1, 4) { s += &format!(" extra={{ {} {} }}", word(rng), word(rng)); }
+        s
+    };
+    let mut fields: Vec<String> = vec![];
+    fields.push(if rng.chance(1, 2) { format!("name=\"{} {}\"", word(rng), word(rng)) } else { format!("name={}", word(rng)) });
+    fields.push(format!("id={}", rng.below(100000)));
+    if rng.chance(1, 2) { fields.push(format!("core=\"{}\\\"{}\"", word(rng), word(rng))); }
+    fields.push(format!("flags={{ {} }}", (0..rng.below(4)).map(|_| word(rng)).collect::<Vec<_>>().join(" ")));
+    let mut keys: Vec<String> = (0..rng.below(4)).map(|_| word(rng)).collect();
+    keys.sort(); keys.dedup();
+    fields.push(format!("army={{ {} }}", keys.iter().map(|k| format!("{}={}", k, rng.below(500) as i64 - 250)).collect::<Vec<_>>().join(" ")));
+    fields.push(format!("unit={{ {} }}", unit(rng)));
+    fields.push(format!("list={{ {} }}", (0..rng.below(3)).map(|_| format!("{{ {} }}", unit(rng))).collect::<Vec<_>>().join(" ")));
+    fields.push(format!("date{}{}", if rng.chance(1, 3) { *rng.pick(&[" < ", " >= ", " != ", " ?= ", " == ", "==", "<=", ">"]) } else { "=" }, rng.below(3000)));
+    fields.push(format!("a={}", if rng.chance(1, 2) { "yes" } else { "no" }));
+    if rng.chance(1, 2) { fields.push(format!("b={}", if rng.chance(1, 2) { "yes" } else { "no" })); }
+    for _ in 0..rng.below(3) { let w = word(rng); fields.push(format!("unk_{}={}", w, if rng.chance(1, 2) { format!("{{ {}={{ {} }} }}", w, w) } else { w.clone() })); }
+    // order is irrelevant to a struct
+    for i in (1..fields.len()).rev() { let j = rng.below(i + 1); fields.swap(i, j); }
+    match rng.below(12) {
+        0 => { let i = rng.below(fields.len()); fields.remove(i); }
+        1 => { let i = rng.below(fields.len()); let f = fields[i].clone(); fields.push(f); }
+        2 => { fields.push("id=abc".into()); fields.retain(|f| !f.starts_with("id=") || f == "id=abc"); }
+        _ => {}
+    }
+    let sep = *rng.pick(&[" ", "\n", "\n\t", "  "]);
+    fields.join(sep).into_bytes()
+}
+
+fn gen_dup_doc(rng: &mut Rng) -> Vec<u8> {
+    let word = |rng: &mut Rng| -> String { (0..rng.range(1, 5)).map(|_| (b'a' + rng.below(26) as u8) as char).collect() };
+    let mut fields: Vec<String> = (0..rng.below(4)).map(|_| format!("core={}", word(rng))).collect();
+    if rng.chance(2, 3) { fields.push(format!("id={}", rng.below(1000))); }
+    if rng.chance(9, 10) { fields.push(format!("name={}", word(rng))); }
+    for i in (1..fields.len()).rev() { let j = rng.below(i + 1); fields.swap(i, j); }
+    fields.join(" ").into_bytes()
+}
+
+// ---------------------------------------------------------------------------------------
+
+/// abstract document in the syntax the Lean driver parses (`Spec/TextDoc.lean`): no header values,
+/// unquoted keys.  node := u<hex> | q<hex> | o[field;..] | a[node;..]   field := <keyhex>~<op>~node
+fn ser_node(n: &Node) -> Option<String> {
+    match n {
+        Node::Leaf(l) => Some(match l { Leaf::Quo(b) => format!("q{}", hex(b)), other => format!("u{}", hex(&leaf_text(other).0)) }),
+        Node::Obj(fs) if !fs.is_empty() => Some(format!("o[{}]", ser_fields(fs)?)),
+        Node::Arr(vs) => Some(format!("a[{}]", vs.iter().map(ser_node).collect::<Option<Vec<_>>>()?.join(";"))),
+        Node::Header(name, body) if matches!(**body, Node::Obj(_) | Node::Arr(_)) => Some(format!("h{}:{}", hex(name), ser_node(body)?)),
+        Node::Rgb(r, g, b, a) => {
+            let cs: Vec<String> = [Some(*r), Some(*g), Some(*b), *a].iter().flatten().map(|c| format!("u{}", hex(c.to_string().as_bytes()))).collect();
+            Some(format!("h{}:a[{}]", hex(b"rgb"), cs.join(";")))
+        }
+        _ => None,
+    }
+}
+fn ser_fields(fs: &[Field]) -> Option<String> {
+    let mut out = vec![];
+    for f in fs {
+        if f.ghosts > 0 || f.implicit_eq || matches!(f.key, Leaf::Quo(_)) { return None; }
+        out.push(format!("{}~{}~{}", hex(&leaf_text(&f.key).0), f.op.name(), ser_node(&f.val)?));
+    }
+    Some(out.join(";"))
+}
+
+fn emit_spec(g: &mut Gen, enc: Enc, ty: &Ty, doc: &Doc, expect: Option<&str>) {
+    if expect.is_none() { return; }
+    if let Some(d) = ser_fields(&doc.fields) {
+        let data = render_canonical(&lexemes(doc));
+        g.count("spec-doc");
+        g.emit(format!("spec_doc {} {} d[{}] {}", enc.name(), show_ty(ty), d, hex(&data)));
+    }
+}
+
+fn parse_enc_ty(enc: &str, ty: &str) -> Option<(Enc, Ty)> { Some((Enc::parse(enc)?, parse_ty(ty)?)) }
+
+fn count_val(obs: &mut Obs, path: &str, v: &str) {
+    let k = if v.starts_with("err:missing") { "err:missing" } else if v.starts_with("err:duplicate") { "err:duplicate" } else if is_err(v) { v } else { "ok" };
+    obs.count(&format!("{}:{}", path, k));
+}
+
+fn count_ty(g: &mut Gen, t: &Ty) {
+    let k = match t { Ty::Bool => "bool", Ty::I64 => "i64", Ty::U64 => "u64", Ty::I32 => "i32", Ty::U32 => "u32", Ty::F64 => "f64", Ty::F32 => "f32", Ty::Str => "str", Ty::Any => "any", Ty::Ign => "ign",
+        Ty::Opt(x) => { count_ty(g, x); "opt" } Ty::Seq(x) => { count_ty(g, x); "seq" } Ty::Map(x) => { count_ty(g, x); "map" } Ty::Prop(x) => { count_ty(g, x); "prop" }
+        Ty::Struct(fs) => { for (_, x) in fs { count_ty(g, x); } "struct" } Ty::Enum(_) => "enum" };
+    g.count(&format!("ty:{}", k));
+}
 
 pub fn exec(w: &[&str], obs: &mut Obs) -> Option<String> {
-    None
+    let case = || w.join(" ");
+    match w {
+        ["tde_tape", enc, ty, tape, h, expect] => {
+            let (enc, ty) = parse_enc_ty(enc, ty)?;
+            let data = unhex(h)?;
+            let real = match TextTape::from_slice(&data) { Ok(t) => t, Err(_) => { obs.violation("bad-case", &case(), "input does not parse to a tape"); return Some("bad-case".into()); } };
+            if show::text_tape(real.tokens()) != *tape { obs.violation("bad-case", &case(), "tape argument is not the real tape of the input"); return Some("bad-case".into()); }
+            let r = run_tape(enc, &ty, &real);
+            count_val(obs, "tape", &r);
+            // L3: the slice front end is the same path
+            let s = run_slice(enc, &ty, &data);
+            if s != r { obs.violation("tape-vs-slice", &case(), &format!("tape {} slice {}", r, s)); }
+            if let Some(kind) = expect.strip_prefix('!') {
+                // probe of a RECORDED known divergence (known_findings.txt): reported under its own kind
+                let (x, _) = run_reader(enc, &ty, TokenReader::new(&data[..]));
+                if kind == "array-leading-empty" {
+                    if x != r { obs.violation(kind, &case(), &format!("tape {} reader {}", r, x)); } else { obs.count("probe-agrees:array-leading-empty"); }
+                }
+            } else if *expect != "-" {
+                obs.count("tape:with-expectation");
+                if r != *expect { obs.violation("value-of", &case(), &format!("tape path {} reference {}", r, expect)); }
+                // L3: the reader path over the same bytes yields an equal value
+                let (x, _) = run_reader(enc, &ty, TokenReader::from_slice(&data));
+                if x != r { obs.violation("paths-disagree", &case(), &format!("tape {} reader {}", r, x)); }
+            }
+            Some(r)
+        }
+        [op, enc, ty, rtoks, h, cap, sch, expect] if *op == "tde_stream" || *op == "x-tde_stream" => {
+            let (enc, ty) = parse_enc_ty(enc, ty)?;
+            let data = unhex(h)?;
+            let cap: usize = cap.parse().ok()?;
+            let steps = sched::parse(sch)?;
+            let l = lex(&data);
+            if show_lexed(&l) != *rtoks { obs.violation("bad-case", &case(), "token argument is not the real token stream of the input"); return Some("bad-case".into()); }
+            let applicable = token_model_applicable(&data, &l);
+            if *op == "tde_stream" { if let Err(why) = applicable { obs.violation("bad-case", &case(), why); return Some("bad-case".into()); } }
+            let (r, _) = run_reader(enc, &ty, TokenReader::from_slice(&data));
+            count_val(obs, "stream", &r);
+            let violation = |obs: &mut Obs, kind: &str, detail: String| obs.violation(kind, &case(), &detail);
+            // L3: independent of buffer size and read schedule
+            let (c, full) = run_reader(enc, &ty, TokenReader::builder().buffer_len(cap).build(sched::SchedReader::new(&data, steps)));
+            if full { obs.count("stream:chunked-buffer-full"); }
+            else if c != r { violation(obs, "stream-chunking", format!("slice reader {} chunked {}", r, c)); }
+            // the default 32 KiB reader as well (a quarter of the cases: allocating the buffer dominates the run)
+            if data.len() % 4 == 0 {
+                let (d, _) = run_reader(enc, &ty, TokenReader::new(&data[..]));
+                if d != r { violation(obs, "stream-chunking", format!("slice reader {} default reader {}", r, d)); }
+            }
+            if let Some(kind) = expect.strip_prefix('!') {
+                let s = run_slice(enc, &ty, &data);
+                if s != r { obs.violation(kind, &case(), &format!("reader {} tape {}", r, s)); } else { obs.count(&format!("probe-agrees:{}", kind)); }
+            } else if *expect != "-" {
+                obs.count("stream:with-expectation");
+                if r != *expect { violation(obs, "value-of", format!("stream path {} reference {}", r, expect)); }
+                let s = run_slice(enc, &ty, &data);
+                if s != r { violation(obs, "paths-disagree", format!("reader {} tape {}", r, s)); }
+            }
+            Some(r)
+        }
+        ["spec_doc", enc, ty, _doc, h] => {
+            // the Lean SPEC (valueOf / lexemes / tapeOf of the abstract document) against the real
+            // deserializer, reader and tape parser on the canonical rendering of that document
+            let (enc, ty) = parse_enc_ty(enc, ty)?;
+            let data = unhex(h)?;
+            let tape = match TextTape::from_slice(&data) { Ok(t) => t, Err(_) => return Some("err:parse".into()) };
+            let r = run_tape(enc, &ty, &tape);
+            let (x, _) = run_reader(enc, &ty, TokenReader::from_slice(&data));
+            if x != r { obs.violation("paths-disagree", &case(), &format!("tape {} reader {}", r, x)); }
+            obs.count("spec-doc");
+            Some(format!("{}|{}|{}", r, show_lexed(&lex(&data)), show::text_tape(tape.tokens())))
+        }
+        ["x-derive", which, enc, h] => {
+            let enc = Enc::parse(enc)?;
+            let data = unhex(h)?;
+            let (ty, real_tape, real_stream): (Ty, String, String) = match *which {
+                "top" => {
+                    let a = match enc { Enc::W => jomini::text::de::from_windows1252_slice::<derived::Top>(&data), Enc::U => jomini::text::de::from_utf8_slice::<derived::Top>(&data) };
+                    let b = match enc { Enc::W => jomini::text::de::from_windows1252_reader::<derived::Top, _>(&data[..]), Enc::U => jomini::text::de::from_utf8_reader::<derived::Top, _>(&data[..]) };
+                    (parse_ty(derived::TOP_TY)?, cls(a.map(|t| derived::show_top(&t))), cls(b.map(|t| derived::show_top(&t))))
+                }
+                "dup" => {
+                    let a = match enc { Enc::W => jomini::text::de::from_windows1252_slice::<derived::Dup>(&data), Enc::U => jomini::text::de::from_utf8_slice::<derived::Dup>(&data) };
+                    let b = match enc { Enc::W => jomini::text::de::from_windows1252_reader::<derived::Dup, _>(&data[..]), Enc::U => jomini::text::de::from_utf8_reader::<derived::Dup, _>(&data[..]) };
+                    let (a, b) = (cls(a.map(|t| derived::show_dup(&t))), cls(b.map(|t| derived::show_dup(&t))));
+                    if a != b { obs.violation("paths-disagree", &case(), &format!("derived Dup: tape {} reader {}", a, b)); }
+                    obs.count(&format!("derive:dup:{}", if is_err(&a) { "err" } else { "ok" }));
+                    return Some(a);
+                }
+                _ => return None,
+            };
+            let ts = run_slice(enc, &ty, &data);
+            let (tr, _) = run_reader(enc, &ty, TokenReader::from_slice(&data));
+            // a HashMap keeps the last of duplicated keys; the generator writes distinct sorted keys
+            if real_tape != ts { obs.violation("tyseed-vs-derive", &case(), &format!("tape path: derived {} tyseed {}", real_tape, ts)); }
+            if real_stream != tr { obs.violation("tyseed-vs-derive", &case(), &format!("reader path: derived {} tyseed {}", real_stream, tr)); }
+            if real_tape != real_stream { obs.violation("paths-disagree", &case(), &format!("derived Top: tape {} reader {}", real_tape, real_stream)); }
+            obs.count(&format!("derive:top:{}", if is_err(&real_tape) { "err" } else { "ok" }));
+            Some(real_tape)
+        }
+        ["x-probe", kind, enc, ty, h] => {
+            let (enc, ty) = parse_enc_ty(enc, ty)?;
+            let data = unhex(h)?;
+            let a = run_slice(enc, &ty, &data);
+            let (b, _) = run_reader(enc, &ty, TokenReader::from_slice(&data));
+            obs.count(&format!("probe:{}:{}", kind, if a == b { "paths-agree" } else { "paths-differ" }));
+            Some(format!("{} | {}", a, b))
+        }
+        _ => None,
+    }
+}
+
+fn emit_pair(g: &mut Gen, enc: Enc, ty: &Ty, data: &[u8], expect: Option<&str>) {
+    emit_pair_with(g, enc, ty, data, expect, None)
+}
+
+fn emit_pair_with(g: &mut Gen, enc: Enc, ty: &Ty, data: &[u8], expect: Option<&str>, fixed: Option<(usize, &str)>) {
+    let e = expect.unwrap_or("-");
+    let tys = show_ty(ty);
+    match TextTape::from_slice(data) {
+        Ok(t) => g.emit(format!("tde_tape {} {} {} {} {}", enc.name(), tys, show::text_tape(t.tokens()), hex(data), e)),
+        Err(_) => g.count("tape-parse-error"),
+    }
+    let l = lex(data);
+    let maxtok = l.toks.iter().map(|t| t.len() / 2).max().unwrap_or(1);
+    let cap = match g.rng.below(4) { 0 => maxtok + 8 + g.rng.below(8), 1 => 16 + g.rng.below(48), 2 => 64 + g.rng.below(200), _ => 32768 }.max(8);
+    let sch = sched::show(&sched::random(&mut g.rng, data.len()).into_iter().filter(|s| !matches!(s, sched::Step::Fail | sched::Step::FailForever)).collect::<Vec<_>>());
+    let (cap, sch) = match fixed { Some((c, s)) => (c, s.to_string()), None => (cap, sch) };
+    let op = match token_model_applicable(data, &l) { Ok(()) => "tde_stream", Err(why) => { g.count(&format!("stream-model-not-applicable:{}", why)); "x-tde_stream" } };
+    g.emit(format!("{} {} {} {} {} {} {} {}", op, enc.name(), tys, show_lexed(&l), hex(data), cap, sch, e));
+}
+
+pub fn gen(g: &mut Gen) {
+    // 0. fixed witnesses of repaired findings (also kept in corpus/C02.txt): `==` after a key on the
+    //    streaming path (layout- and chunk-dependent before 42b6207), operators on a first field (F9)
+    for (ty, text, expect) in [
+        ("st(a:prop(str);b:opt(str))", &b"a==b"[..], "{a=prop(exact,s62),b=none}"),
+        ("st(a:prop(str);b:opt(str))", b"a == b            ", "{a=prop(exact,s62),b=none}"),
+        ("st(a:prop(str);b:opt(str))", b"a == b", "{a=prop(exact,s62),b=none}"),
+        ("st(a:prop(i64);b:opt(str))", b"a=1 b==c a2 == 3 ", "{a=prop(eq,i1),b=some(s63)}"),
+        ("st(a:st(b:prop(str)))", b"a={ b ?= c }", "{a={b=prop(exists,s63)}}"),
+        ("st(a:st(b:prop(str)))", b"a={ b != c }", "{a={b=prop(ne,s63)}}"),
+    ] {
+        let ty = parse_ty(ty).unwrap();
+        for (cap, sch) in [(32768usize, "-"), (8, "R1"), (9, "R2"), (16, "3,1,R5")] {
+            emit_pair_with(g, Enc::W, &ty, text, Some(expect), Some((cap, sch)));
+        }
+    }
+    // 1. well-formed save-style documents x layouts x encodings x target types
+    let n = g.budget(15_000, 180_000);
+    let cfg = DocCfg::save_style();
+    for i in 0..n {
+        let mut doc = gen_doc(&mut g.rng, &cfg);
+        // the shared generator returns an empty document 1 time in 5: keep a few, redraw the rest
+        while doc.fields.is_empty() && g.rng.chance(19, 20) { doc = gen_doc(&mut g.rng, &cfg); }
+        let data = render_layout(&mut g.rng, &LayoutCfg::reader_safe(), &lexemes(&doc));
+        let mut ty = if g.rng.chance(1, 8) { doc_ty(&mut g.rng, &doc, true) } else { gen_fields_ty(&mut g.rng, &doc.fields, &TyCfg { prop: true }) };
+        if g.rng.chance(1, 12) { ty = misfit(&mut g.rng, &ty); g.count("ty-misfit"); }
+        count_ty(g, &ty);
+        let encs: &[Enc] = if i % 3 == 0 { &[Enc::W, Enc::U] } else if i % 3 == 1 { &[Enc::W] } else { &[Enc::U] };
+        for &enc in encs {
+            let expect = value_of(enc, &ty, &doc);
+            g.count(if expect.is_some() { "wf:with-expectation" } else { "wf:no-expectation" });
+            emit_pair(g, enc, &ty, &data, expect.as_deref());
+            emit_spec(g, enc, &ty, &doc, expect.as_deref());
+        }
+    }
+    // 2. documents with operators: Property capture (operators on any field, first fields included since the F9 repair)
+    let n = g.budget(3_000, 36_000);
+    let cfg_ops = DocCfg { operators: true, ..DocCfg::save_style() };
+    for _ in 0..n {
+        let mut doc = gen_doc(&mut g.rng, &cfg_ops);
+        let data = render_layout(&mut g.rng, &LayoutCfg::reader_safe(), &lexemes(&doc));
+        // operators are only observable through Property: wrap every field with a non-'=' operator
+        fn wrap(rng: &mut Rng, fs: &[Field]) -> Ty {
+            let t = gen_fields_ty(rng, fs, &TyCfg { prop: true });
+            t
+        }
+        let ty = wrap(&mut g.rng, &doc.fields);
+        count_ty(g, &ty);
+        let enc = if g.rng.chance(1, 2) { Enc::W } else { Enc::U };
+        // a non-'=' operator under a non-Property type is dropped on both paths; value_of agrees with that
+        let expect = value_of(enc, &ty, &doc);
+        g.count(if expect.is_some() { "ops:with-expectation" } else { "ops:no-expectation" });
+        emit_pair(g, enc, &ty, &data, expect.as_deref());
+        emit_spec(g, enc, &ty, &doc, expect.as_deref());
+    }
+    // 3. malformed stream: mutations of rendered documents, random text; no expectation, correspondence only
+    let n = g.budget(6_000, 72_000);
+    for _ in 0..n {
+        let doc = gen_doc(&mut g.rng, &DocCfg { max_fields: 4, ..DocCfg::text_full() });
+        let base = render_layout(&mut g.rng, &LayoutCfg::reader_safe(), &lexemes(&doc));
+        let data = if g.rng.chance(1, 8) { random_text(&mut g.rng, 24) } else if g.rng.chance(1, 3) { base } else { mutate(&mut g.rng, &base, TEXT_ALPHABET) };
+        let mut ty = if g.rng.chance(1, 2) { doc_ty(&mut g.rng, &doc, true) } else { gen_fields_ty(&mut g.rng, &doc.fields, &TyCfg { prop: true }) };
+        if g.rng.chance(1, 4) { ty = misfit(&mut g.rng, &ty); }
+        let enc = if g.rng.chance(1, 2) { Enc::W } else { Enc::U };
+        g.count("malformed");
+        emit_pair(g, enc, &ty, &data, None);
+    }
+    // 4. real derived structs against the Ty interpreter
+    let n = g.budget(2_500, 30_000);
+    for i in 0..n {
+        let enc = if i % 2 == 0 { Enc::W } else { Enc::U };
+        if i % 4 == 3 {
+            let data = gen_dup_doc(&mut g.rng);
+            g.emit(format!("x-derive dup {} {}", enc.name(), hex(&data)));
+        } else {
+            let data = gen_top_doc(&mut g.rng);
+            g.emit(format!("x-derive top {} {}", enc.name(), hex(&data)));
+            if i % 8 == 0 { emit_pair(g, enc, &parse_ty(derived::TOP_TY).unwrap(), &data, None); }
+        }
+    }
+    // 5. RECORDED known divergences (known_findings.txt), probed with the real ops and reported under their
+    //    own oracle kinds; they are not part of the well-formed document model
+    let word = |rng: &mut Rng| -> String { (0..rng.range(1, 5)).map(|_| (b'a' + rng.below(26) as u8) as char).collect() };
+    for i in 0..12 {
+        // an empty `{}` as FIRST element of an array: dropped by the tape parser, kept by the reader path
+        let key = *g.rng.pick(&["a", "list", "flags"]);
+        let rest: Vec<String> = (0..g.rng.below(4)).map(|_| if g.rng.chance(1, 4) { format!("{{ {} }}", word(&mut g.rng)) } else { word(&mut g.rng) }).collect();
+        let text = format!("{}={{ {{}} {} }} id={}", key, rest.join(" "), g.rng.below(100));
+        let ty = if rest.iter().all(|r| r.starts_with('{')) && g.rng.chance(1, 2) { format!("st({}:seq(seq(any)))", key) } else { format!("st({}:seq(ign);id:opt(i64))", key) };
+        let enc = if i % 2 == 0 { Enc::W } else { Enc::U };
+        emit_pair_with(g, enc, &parse_ty(&ty).unwrap(), text.as_bytes(), Some("!array-leading-empty"), None);
+    }
+    for i in 0..12 {
+        // a header value read as a sequence: the tape path yields [name, body], the reader path ignores the
+        // current token in deserialize_seq
+        let hdr = *g.rng.pick(&["rgb", "hsv", "LIST", "hsv360"]);
+        let n = g.rng.range(1, 4);
+        let body: Vec<String> = (0..n).map(|_| g.rng.below(256).to_string()).collect();
+        let tail = if g.rng.chance(1, 2) { format!(" name={}", word(&mut g.rng)) } else { String::new() };
+        let text = format!("color = {} {{ {} }}{}", hdr, body.join(" "), tail);
+        let ty = *g.rng.pick(&["st(color:seq(any))", "st(color:seq(any);name:opt(str))", "map(seq(any))", "st(color:opt(seq(ign)))"]);
+        let enc = if i % 2 == 0 { Enc::W } else { Enc::U };
+        emit_pair_with(g, enc, &parse_ty(ty).unwrap(), text.as_bytes(), Some("!text-reader-header"), None);
+    }
+    for (kind, ty, text) in [
+        ("exact-operator-split-repaired", "st(a:prop(str);b:opt(str))", &b"a==b"[..]),
+        ("exact-operator-split-repaired", "st(a:prop(str);b:opt(str))", b"a == b            "),
+        ("first-field-operator-repaired", "st(a:st(b:prop(str)))", b"a={ b ?= c }"),
+    ] {
+        g.emit(format!("x-probe {} w1252 {} {}", kind, ty, hex(text)));
+    }
 }
 
 pub fn tables() -> String {
